@@ -506,6 +506,33 @@ def serve_cases(backend):
         s.close()
     else:
         fail("never-listening", error=repr(sv.result["error"]))
+
+    # 4b. ... or the graceful timeout has elapsed: a request that outlives it does not keep lifespan.shutdown away
+    ev = []
+    sv = Served(backend, lifespan_app(ev, request_delay=2.5), graceful_timeout=0.4, shutdown_timeout=1.0)
+    s = sv.wait_listening()
+    if s is not None:
+        th = threading.Thread(target=lambda: get(s, b"/stuck", timeout=4.0))
+        th.start()
+        time.sleep(0.15)
+        t_trigger = time.monotonic()
+        sv.trigger.set()
+        sv.thread.join(6.0)
+        th.join(5.0)
+        order = [w for _, w in ev]
+        shut = [t for t, w in ev if w == "lifespan.shutdown"]
+        descs.append({"case": "graceful-timeout-elapsed", "backend": backend, "events": order,
+                      "shutdown_after": [round(t - t_trigger, 3) for t in shut]})
+        if sv.thread.is_alive():
+            fail("serve-did-not-return")
+            sv.stop()
+        if len(shut) != 1:
+            fail("lifespan-shutdown-count", order=order, case="a request outlives graceful_timeout")
+        elif shut[0] - t_trigger < 0.4 - 0.05:
+            fail("lifespan-shutdown-before-graceful-timeout", after=round(shut[0] - t_trigger, 3))
+        s.close()
+    else:
+        fail("never-listening", error=repr(sv.result["error"]))
     return descs, fails
 
 
